@@ -271,6 +271,8 @@ def features(f):
                 out.add("repeat-increment-while")
         if s[0] == "skip":
             out.add("skip")
+        if s[0] in ("for",) and s[6] is not None and any(x[0] == "skip" for x in walk(s[7])):
+            out.add("skip-under-until")
     return out
 
 
@@ -420,6 +422,11 @@ def fixed_functions():
                                                         ("for", "i", ("i", 1), ("i", 6), None, None, ("b", "ge", ("a", "i"), a),
                                                          [("assign", "r", ("b", "plus", r, ("i", 1)))]),
                                                         ("return", r)]))
+    # SKIP in the body of a loop with an UNTIL control: EXPRESS evaluates UNTIL after the SKIP (13.9.3 / 13.11)
+    fs.append(Func("f_skipuntil", ["x"], [("r", None)], [("assign", "r", ("i", 0)),
+                                                          ("for", "i", ("i", 1), ("i", 5), None, None, ("b", "ge", ("a", "i"), a),
+                                                           [("if", ("b", "eq", ("a", "i"), a), [("skip",)], None), ("assign", "r", ("b", "plus", r, ("a", "i")))]),
+                                                          ("return", r)]))
     fs.append(Func("f_while", ["x"], [("r", None), ("n", None)], [("assign", "r", a), ("while", "n", 3, [("assign", "r", ("b", "plus", r, ("a", "n")))]), ("return", r)]))
     fs.append(Func("f_until", ["x"], [("r", None), ("n", None)], [("assign", "r", a), ("until", "n", 2, [("assign", "r", ("b", "times", r, ("i", 2)))]), ("return", r)]))
     fs.append(Func("f_case", ["x"], [("r", None)], [("assign", "r", ("i", 0)),
